@@ -37,7 +37,9 @@ def _project(style, renamed, consumer_first, origin_all, where='package', scope=
     user = ('from %s import %s as FromPkg\nfrom pk._impl import X as FromImpl\n'
             'class U1(FromPkg):\n    """see L{pk._impl.X}, L{%s.%s} and L{pk._impl.X.m}"""\n'
             'class U2(FromImpl):\n    """see L{FromImpl.In}"""\n'
-            'def f(a: FromImpl, b: "FromPkg") -> None:\n    pass\n') % (pub, exp, pub, exp)
+            'def f(a: FromImpl, b: "FromPkg") -> None:\n    pass\n'
+            # nested subclasses whose base is named through a binding of the enclosing class body (an alias, an import)
+            'class Holder:\n    Base = FromImpl\n    class N1(Base):\n        "doc"\n    from pk._impl import X as Local\n    class N2(Local):\n        "doc"\n') % (pub, exp, pub, exp)
     star_user = 'from pk._impl import *\nclass S1(X):\n    """see L{X.m}"""\n'
     if scope == 'class':
         user = user.replace(f'from {pub} import {exp} as FromPkg', 'from pk._impl import X as FromPkg')
@@ -124,7 +126,7 @@ def _check(case):
         if moved and isinstance(o, model.Class) and o.name == 'E3':
             if o.baseobjects != [ob.contents['In']]:
                 fails.append({'observed': f'{key}.baseobjects = {o.baseobjects}', 'required': f'[{ob.contents["In"]}]', 'class': 'base'})
-        if moved and isinstance(o, model.Class) and o.name in ('U1', 'U2', 'V1', 'V2', 'E2'):
+        if moved and isinstance(o, model.Class) and o.name in ('U1', 'U2', 'V1', 'V2', 'E2', 'N1', 'N2'):
             if o.baseobjects != [ob]:
                 fails.append({'observed': f'{key}.baseobjects = {o.baseobjects}', 'required': f'[{ob}]', 'class': 'base'})
     for key, o in system.allobjects.items():
